@@ -125,6 +125,49 @@ def run(ctx):
     (ctx.bad if probs else ctx.ok)("N-REQ", "N-REQ:machine_parser", mp.span, "; ".join(probs) if probs else
         "Ok only when req.is_empty(); a section is parsed only while still in req (then removed); otherwise Err")
 
+    # ---------------------------------------------------------------- N-NAME
+    # generator: the name -> address map that `to='<name>'` is resolved with. The key under which a machine's
+    # application address is registered must be that machine's own name: every definition of the key variable lies
+    # inside the loop over the machines (a value set before the loop is carried over from the previous machine)
+    mg = prog.one("ndl::generating::machine_generator::machine_generator")
+    mgc = cfg(mg)
+    maps = [l for l, (tix, name, _u) in enumerate(mg.locals) if name and mg.local_tystr(l).startswith("std::collections::hash::map::HashMap<alloc::string::String, elvis_core::protocols::ipv4::ipv4_address::Ipv4Address")]
+    ctx.require(len(maps) == 1, "N-NAME: the name -> address map of machine_generator not found (%d candidates)" % len(maps))
+    ins = [(bb, t) for bb, t in K.calls(mg) if (F.callee_key(t) or "").startswith("std::collections::hash::map::") and (F.callee_key(t) or "").endswith("::insert") and ndl._root_local(mg, F.call_args(t)[0]) == maps[0]]
+    ctx.require(len(ins) >= 1, "N-NAME: no insert into the name -> address map found")
+    for bb, t in ins:
+        probs = []
+        ko = dep.arg_origins(mg, bb, 1, through_calls=False)
+        keys = set()
+        for a in ko:
+            if a[0] == "call" and a[1] and a[1].endswith("::clone") and isinstance(a[2], int):
+                r = ndl._root_local(mg, F.call_args(mg.term(a[2]))[0])
+                if r is not None:
+                    keys.add(r)
+            if a[0] == "local":
+                keys.add(a[1])
+        keys = {k_ for k_ in keys if mg.local_tystr(k_).startswith("alloc::string::String") and mg.local_name(k_)}
+        if len(keys) != 1:
+            ctx.require(False, "N-NAME: the key of name_to_ip.insert is not one String variable (%s)" % sorted(keys))
+        kl = keys.pop()
+        if not mgc.in_loop(bb):
+            probs.append("the registration is not inside the loop over the machines")
+        defs = []
+        for b2, blk in enumerate(mg.blocks):
+            if blk["c"]:
+                continue
+            for st in blk["s"]:
+                if st[0] == "a" and st[1] == [kl, []]:
+                    defs.append((b2, st[3]))
+            tt = blk["t"]
+            if tt[0] == "call" and F.call_dest(tt) == [kl, []]:
+                defs.append((b2, F.call_loc(tt)))
+        outside = [loc for b2, loc in defs if not mgc.in_loop(b2)]
+        if outside:
+            probs.append("the name a machine's address is registered under (`%s`) is initialised once before the loop over the machines (%s): a machine without a name inherits the previous machine's name and replaces its address, so `to='<that name>'` reaches the wrong machine" % (mg.local_name(kl), outside[0]))
+        (ctx.bad if probs else ctx.ok)("N-NAME", "N-NAME:name_to_ip.insert", F.call_loc(t), "; ".join(probs) if probs else
+            "the key is (re)initialised for every machine inside the loop (%d definitions, all in the loop)" % len(defs))
+
     # ---------------------------------------------------------------- N-TAGS
     gt = prog.one("ndl::parsing::parser_util::get_type")
     tags = set()
